@@ -64,6 +64,7 @@ typedef struct {
     int depth;
     int libstack[MAXDEPTH];
     int entered[MAXDEPTH];         /* did call at this depth enter cffi_call_python */
+    int want_errno[MAXDEPTH];      /* errno of the C caller right before the call at this depth */
     char written[MAXDEPTH][16];    /* what the stand-in wrote as result */
     int prio;
     int in_pyinit;
@@ -106,9 +107,11 @@ static const char *probename[] = { "race_to_Py_InitializeEx", "parked_on_mutex_w
     "call_after_failed_init_zeroed", "start_python_recursive", "mutex_reinitialised",
     "capsule_slot_not_null_at_end", "python_already_initialized" };
 static long probes[NPROBES];
-enum { U_CALL_NOT_ENTERED, U_RESULT_MISMATCH, U_START_RET, NUNSPEC };
+enum { U_CALL_NOT_ENTERED, U_RESULT_MISMATCH, U_START_RET, U_ENTRY_ERRNO, NUNSPEC };
 static const char *unspecname[] = { "call_returned_without_entering_python_though_init_ok",
-    "result_differs_from_python_value", "cffi_start_python_return_value_unexpected" };
+    "result_differs_from_python_value", "cffi_start_python_return_value_unexpected",
+    /* not a clause of C28: read by the C22 check (errno of the C caller must reach cffi_call_python) */
+    "entry_errno_differs_from_callers" };
 static long unspec[NUNSPEC];
 enum { FK_INIT_RAISES, FK_IMPORT_FAILS, FK_MODINIT_FAILS, FK_COMPILE_FAILS, FK_NEVER_REGISTERED,
        FK_STALL_PCT, FK_RECURSIVE_CALL, NFK };
@@ -507,6 +510,7 @@ void Py_InitializeEx(int initsigs)
     py_initializing = 0; co[cur].in_pyinit = 0;
     gil_owner = cur;                  /* returns holding the GIL */
     change_epoch++;
+    errno = ENOENT;                   /* the real start-up leaves errno in any state (failed stat() calls) */
     event("pyinit-done", 0);
 }
 
@@ -637,6 +641,7 @@ PyObject *PyEval_EvalCode(PyObject *code, PyObject *g, PyObject *loc)
     if (gil_owner != cur) harness("PyEval_EvalCode without the GIL");
     if (++lib[l].evalcount > 1)
         violate("C28.2", "the init code of lib%c ran %d times", 'A' + l, lib[l].evalcount);
+    errno = EAGAIN;                   /* running Python code leaves errno in any state */
     lib[l].state = LS_RUNNING; lib[l].init_thread = cur;
     change_epoch++;
     for (i = 0; i < lib[l].nsteps; i++) {
@@ -663,6 +668,8 @@ static void stub_call_python(struct _cffi_externpy_s *ep, char *args)
     int l = (strncmp(ep->name, "libB", 4) == 0);
     int fn = l ? 2 : (ep->name[5] == 'g' ? 1 : 0);
     int d = co[cur].depth - 1, i;
+    int entry_errno = errno;
+    if (d >= 0 && entry_errno != co[cur].want_errno[d]) unspec[U_ENTRY_ERRNO]++;
     point("call_python", fn, 0);
     if (!(lib[l].state == LS_OK || (lib[l].state == LS_RUNNING && lib[l].init_thread == cur)))
         violate("C28.3", "T%d runs extern \"Python\" function %s although the initialization of lib%c %s",
@@ -713,6 +720,9 @@ static void do_call(call_t *c, int from_init)
         }
     }
     point("call", c->kind, 1);
+    /* the C caller's errno: unique per call; start-up work of the interpreter clobbers errno */
+    me->want_errno[d] = 3000 + 16 * (int)steps % 100000 + d;
+    errno = me->want_errno[d];
     switch (c->kind) {
     case C_AF: { int r = f((int)c->a1, (int)c->a2); memcpy(res, &r, sizeof r); rsz = sizeof r; break; }
     case C_AG: { pair_t r = g((int)c->a1); memcpy(res, &r, sizeof r); rsz = sizeof r; break; }
